@@ -15,8 +15,6 @@ pub ghost struct TCfg { pub lang: Lang, pub map: Map<String, String>, pub prefix
 
 /// the spelling under which a built-in / container type is looked up in type_mappings (Display for SpecialRustType: text emission)
 pub uninterp spec fn special_key(s: SpecialRustType) -> String;
-/// decimal spelling of an array length (Display for usize)
-pub uninterp spec fn dec(n: usize) -> Seq<char>;
 
 pub open spec fn mapped(c: TCfg, k: String) -> Option<Seq<char>> { if c.map.contains_key(k) { Some(c.map[k]@) } else { None } }
 pub open spec fn has_prefix(l: Lang) -> bool { l is Kotlin || l is Swift }
